@@ -19,7 +19,7 @@ def main(argv=None):
     ap.add_argument("--tier", default=os.environ.get("VERIF_TIER") or "quick", choices=["quick", "thorough"])
     ap.add_argument("--facts", help="development: use a fact file instead of extracting")
     ap.add_argument("--repo", help="analyse this tree instead of /repo (selftest variants)")
-    ap.add_argument("--no-evidence", action="store_true")
+    ap.add_argument("--no-evidence", action="store_true", help="do not write evidence/ and reports/ (runs against seeded variants)")
     ap.add_argument("-v", "--verbose", action="store_true")
     a = ap.parse_args(argv)
     prop = a.prop.upper()
@@ -65,7 +65,7 @@ def main(argv=None):
             mod.thorough_extra(ctx)
         except Exception as e:
             ctx.precondition_failed("internal error in thorough_extra: %r\n%s" % (e, traceback.format_exc()[-1500:]))
-    lines, rc, ev = ctx.finish()
+    lines, rc, ev = ctx.finish(write=not a.no_evidence)
     cov = ev["coverage"]
     print("%s tier=%s configs=%s obligations=%d discharged=%d known=%d violations=%d wall=%.1fs" % (
         prop, a.tier, ",".join(c["config"] for c in ctx.configs), cov["obligations"], cov["discharged"],
